@@ -360,7 +360,9 @@ class POP3CommandHandler:
         #       more than that (`+1`, `1_0`, digits of other scripts) and
         #       would turn it into the number of some message.
         #
-        if not (num_str.isascii() and num_str.isdigit()):
+        #       (And it refuses more digits than any message count has.)
+        #
+        if not (num_str.isascii() and num_str.isdigit()) or len(num_str) > 18:
             return None
         n = int(num_str)
         if n < 1 or n > self.msg_count:
@@ -543,15 +545,14 @@ class POP3CommandHandler:
             await self.client.push("-ERR no such message\r\n")
             return True
 
-        try:
-            num_lines = int(parts[1])
-        except ValueError:
+        # NOTE: The number of lines is a string of decimal digits like the
+        #       message number: not `+1`, `-0` or `1_0`. (More lines than any
+        #       message has is all of them.)
+        #
+        if not (parts[1].isascii() and parts[1].isdigit()):
             await self.client.push("-ERR invalid number of lines\r\n")
             return True
-
-        if num_lines < 0:
-            await self.client.push("-ERR invalid number of lines\r\n")
-            return True
+        num_lines = int(parts[1][:18])
 
         try:
             msg = self._get_msg(n)
